@@ -158,6 +158,7 @@ func serverEncodeDecodeFile(genpkg string, svc *expr.HTTPServiceExpr) *codegen.F
 		if e.MultipartRequestDecoder != nil {
 			fm := transTmplFuncs(svc)
 			fm["mapQueryDecodeData"] = mapQueryDecodeData
+			fm["multipartFieldCode"] = multipartFieldCode
 			sections = append(sections, &codegen.SectionTemplate{
 				Name:    "multipart-request-decoder",
 				Source:  readTemplate("multipart_request_decoder", "request_elements", "slice_item_conversion", "element_slice_conversion", "query_slice_conversion", "query_type_conversion", "query_map_conversion", "path_conversion"),
@@ -205,6 +206,32 @@ func transTmplFuncs(s *expr.HTTPServiceExpr) map[string]any {
 		"printValue":           printValue,
 		"viewedServerBody":     viewedServerBody,
 	}
+}
+
+// multipartFieldCode generates the code that initializes the payload fields
+// that are not part of the multipart body (headers, params and cookies) from
+// the decoded request elements. It is the same code the payload constructors
+// use so that aliased primitive types are converted.
+func multipartFieldCode(init *InitData) string {
+	var initArgs []*codegen.InitArgData
+	for _, arg := range init.ServerArgs {
+		if arg.FieldName == "" {
+			continue
+		}
+		initArgs = append(initArgs, &codegen.InitArgData{
+			Name:         arg.VarName,
+			Pointer:      arg.Pointer,
+			Type:         arg.Type,
+			FieldName:    arg.FieldName,
+			FieldPointer: arg.FieldPointer,
+			FieldType:    arg.FieldType,
+		})
+	}
+	c, _, err := codegen.InitStructFields(initArgs, "(*p)", "", init.ReturnTypePkg)
+	if err != nil {
+		panic(err) // bug
+	}
+	return strings.TrimRight(c, "\n")
 }
 
 // mustDecodeRequest returns true if the Payload type is not empty.
